@@ -98,6 +98,22 @@ def gen_uamiv(rng, maxdim=4, maxsteps=3):
                 with_etflag=rng.random() < 0.5, tstep=tstep, data=data)
 
 
+def gen_uamiv_at(rng, y, j, h, with_etflag=False, tstep=1):
+    """a random gridded file whose first step begins at year y, day j, hour h"""
+    import datetime as dt
+    c = gen_uamiv(rng)
+    t0 = dt.datetime(y, 1, 1) + dt.timedelta(days=j - 1, hours=h)
+    c['tflag'], c['etflag'] = [], []
+    for i in range(len(c['data'])):
+        a = t0 + dt.timedelta(hours=tstep * i)
+        b = a + dt.timedelta(hours=tstep)
+        c['tflag'].append([int(a.strftime('%Y%j')), int(a.strftime('%H%M%S'))])
+        c['etflag'].append([int(b.strftime('%Y%j')), int(b.strftime('%H%M%S'))])
+    c['with_etflag'] = with_etflag
+    c['tstep'] = tstep
+    return c
+
+
 def in_read_domain(c):
     """files on which the legacy record reader (uamiv.Read) is meaningful: see DESIGN (C13)"""
     nt = len(c['tflag'])
